@@ -117,6 +117,11 @@ def gen_design(rng, size="small", opts=None):
                 callees.append(rng.choice(pool))
         rng.shuffle(callees)
         _gen_body(rng, m, callees, o)
+    for p in prims:
+        p.pop("_used", None)
+        if p["style"] == "header":
+            p["decl_order"] = [["port", i] for i in range(len(p["ports"]))]
+            rng.shuffle(p["decl_order"])
     order = mods + prims
     if rng.random() < o["p_forward"]:
         rng.shuffle(order)
@@ -330,6 +335,12 @@ class Layout:
         self.out = []
 
     def sp(self, must=False):
+        if self.rng is None:        # plain layout: one blank between tokens, a new line after ';'
+            if self.out and self.out[-1].endswith(";"):
+                self.out.append("\n")
+            elif self.out and not self.out[-1].endswith("\n"):
+                self.out.append(" ")
+            return
         r = self.rng.random()
         if self.comments and r < 0.04:
             self.out.append(" /* " + self.rng.choice(["c", "x y", "wire q;", "* star", "endmodule"]) + " */ ")
@@ -505,8 +516,9 @@ def w_module(L, m):
 
 
 def render(design, rng, comments=True):
-    L = Layout(rng, comments)
-    if comments:
+    """rng=None: plain deterministic layout"""
+    L = Layout(rng, comments and rng is not None)
+    if comments and rng is not None:
         L.out.append("// generated by the verilog engine's independent writer\n")
     if design.get("timescale"):
         L.line("`timescale " + design["timescale"])
